@@ -3,6 +3,7 @@ package main
 import (
 	"errors"
 	"sync"
+	"time"
 
 	corestore "cosmossdk.io/core/store"
 )
@@ -16,19 +17,20 @@ type rawOp struct {
 }
 
 type hooks struct {
-	mu       sync.Mutex // the importer writes its batches from a background goroutine
-	writes   [][]rawOp  // physical writes in order
-	record   bool
-	calls    int          // number of storage calls seen (Get, Has, iterator create/step, batch Set/Delete/Write, direct Set/Delete)
-	failAt   map[int]bool // calls (1-based) that fail
-	failed   int          // how many faults were actually injected
-	gets     int          // point reads (Get/Has) — the C11 node read counter
-	kinds    map[string]int
-	seq      []string // when non-nil: the kind of every call, in order
-	trace    bool
-	failNth  map[string]int // kind -> ordinal (1-based) of the call of that kind that fails
-	nth      map[string]int
-	failKind string // kind of the last injected fault
+	mu        sync.Mutex // the importer writes its batches from a background goroutine
+	writes    [][]rawOp  // physical writes in order
+	record    bool
+	calls     int          // number of storage calls seen (Get, Has, iterator create/step, batch Set/Delete/Write, direct Set/Delete)
+	failAt    map[int]bool // calls (1-based) that fail
+	failed    int          // how many faults were actually injected
+	gets      int          // point reads (Get/Has) — the C11 node read counter
+	kinds     map[string]int
+	seq       []string // when non-nil: the kind of every call, in order
+	trace     bool
+	failNth   map[string]int // kind -> ordinal (1-based) of the call of that kind that fails
+	nth       map[string]int
+	failKind  string        // kind of the last injected fault
+	slowWrite time.Duration // delay of every unsynced batch Write (the importer issues those from a background goroutine)
 }
 
 var errInjected = errors.New("injected storage fault")
@@ -200,15 +202,20 @@ func (b *wrapBatch) Delete(key []byte) error {
 }
 
 func (b *wrapBatch) flush() {
+	b.h.mu.Lock()
 	if b.h.record && len(b.ops) > 0 {
 		b.h.writes = append(b.h.writes, b.ops)
 	}
+	b.h.mu.Unlock()
 	b.ops = nil
 }
 
 func (b *wrapBatch) Write() error {
 	if err := b.h.call("bwrite"); err != nil {
 		return err
+	}
+	if b.h.slowWrite > 0 {
+		time.Sleep(b.h.slowWrite)
 	}
 	if err := b.inner.Write(); err != nil {
 		return err
